@@ -19,14 +19,14 @@ func init() { core.Register(c10{}) }
 func (c10) ID() string    { return "C10" }
 func (c10) Level() string { return "exploration" }
 func (c10) Rule() string {
-	return "cases = (level index|db, index type, shard count in {1,2,3,4,16,64,1024}, key set of 0..300 keys with shared prefixes / 0xff-heavy keys / one-key and empty sets, plus large populations of 4 Ki..300 K keys sized at and around powers of two and round decimal numbers, direction, prefix incl. empty, whole-key and longer-than-key prefixes); per case 6..12 iterators each driven by 5..200 calls of Rewind/Seek/Next/Valid/Key/Value where the first call on a fresh iterator is Rewind or Seek and every Seek target lies at or ahead of the cursor in iteration order (on an exhausted iterator only targets beyond the last key); the first iterator of every case (the first two over a large population) starts with a complete Rewind..Next walk to exhaustion; after EVERY call (Valid, Key, Value) is compared with a cursor over the sorted snapshot taken from the model at creation, and the slice Value returned is then overwritten by the harness (Value is asked again at the same position after interleaved writes); between calls the harness overwrites, deletes and inserts keys before/after the cursor, which must not change any output; ListKeys and Fold (incl. early stop) must equal the same ordered snapshot. Non-trivial: iterator with >=2 non-empty shards, >=1 Seek after a Next and >=1 Rewind after exhaustion; distinct = hash of (level, type, shards, keys, call log)"
+	return "cases = (level index|db, index type, shard count in {1,2,3,4,16,64,1024}, key set of 0..300 keys with shared prefixes / 0xff-heavy keys / one-key and empty sets, plus large populations of 4 Ki..300 K keys sized at and around powers of two and round decimal numbers, direction, prefix incl. empty, whole-key and longer-than-key prefixes); per case 6..12 iterators, created in groups of 1..3 whose lifetimes overlap (later ones are created while earlier ones are partly consumed, half of the time with no write in between; calls then alternate between them at random, with ListKeys/Fold in between), each driven by 5..200 calls of Rewind/Seek/Next/Valid/Key/Value where the first call on a fresh iterator is Rewind or Seek and every Seek target lies at or ahead of the cursor in iteration order (on an exhausted iterator only targets beyond the last key); the first iterator of every case (the first two over a large population) starts with a complete Rewind..Next walk to exhaustion; after EVERY call (Valid, Key, Value) is compared with a cursor over the sorted snapshot taken from the model at creation, and the slice Value returned is then overwritten by the harness (Value is asked again at the same position after interleaved writes); between calls the harness overwrites, deletes and inserts keys before/after the cursor, which must not change any output; ListKeys and Fold (incl. early stop) must equal the same ordered snapshot. Non-trivial: iterator with >=2 non-empty shards, >=1 Seek after a Next and >=1 Rewind after exhaustion; distinct = hash of (level, type, shards, keys, call log)"
 }
 func (c10) Assumptions() []string {
 	return []string{"Seek to a target behind the cursor is never generated (unclaimed)", "Key/Value/Next on a never-positioned (fresh) iterator are not generated: position first with Rewind or Seek",
 		"Value() is only called while Valid()", "sequential: writes are interleaved between calls, not concurrent with them"}
 }
 func (c10) Required() []string {
-	return []string{"iter_calls_compared", "seeks", "rewinds_after_exhaustion", "writes_interleaved", "full_walks", "cases_large_population", "listkeys_compared", "fold_compared", "iters_index_level", "iters_db_level"}
+	return []string{"iter_calls_compared", "seeks", "rewinds_after_exhaustion", "writes_interleaved", "full_walks", "iterators_with_overlapping_lifetimes", "cases_large_population", "listkeys_compared", "fold_compared", "iters_index_level", "iters_db_level"}
 }
 
 type c10Case struct {
@@ -89,7 +89,7 @@ func (c10) Cases(tier string, seed uint64) []core.Case {
 			lvl = "db"
 		}
 		out = append(out, core.Case{Index: i, ID: fmt.Sprintf("c10-L%04d", j), Seed: r.U64(),
-			Data: c10Case{Level: lvl, Typ: core.IndexTypes[(j/2)%3], Shards: []int{16, 2, 64, 1024, 3, 1}[(j/3)%6], NKeys: nk, IO: byte(r.Intn(2)), KeyMode: 3}})
+			Data: c10Case{Level: lvl, Typ: core.IndexTypes[(j/2)%3], Shards: []int{16, 2, 4, 1, 3, 64}[(j/3)%6], NKeys: nk, IO: byte(r.Intn(2)), KeyMode: 3}})
 	}
 	return out
 }
@@ -257,8 +257,48 @@ func (c10) Run(c core.Case, w *core.Worker) core.Result {
 			res.Add("cases_with_64Ki_keys_or_more", 1)
 		}
 	}
-	for it := 0; it < nIters && res.Verdict != "violated"; it++ {
-		reverse := r.Chance(1, 2)
+	type liveIter struct {
+		ut                                        iterUnderTest
+		snap                                      []kvPair
+		pos                                       int // -1 = fresh (unpositioned)
+		reverse                                   bool
+		ncalls, done                              int
+		reuseSeek                                 bool
+		seekBuf                                   []byte
+		seekAfterNext, rewindAfterEx, lastWasNext bool
+	}
+	cmpState := func(li *liveIter, call string) bool {
+		res.Add("iter_calls_compared", 1)
+		ut, pos, snap := li.ut, li.pos, li.snap
+		valid := ut.Valid()
+		wantValid := pos >= 0 && pos < len(snap)
+		if valid != wantValid {
+			fail(fmt.Sprintf("after %s: Valid()=%v, model cursor says %v (pos %d of %d)", call, valid, wantValid, pos, len(snap)))
+			return false
+		}
+		if !valid {
+			if k := ut.Key(); k != nil {
+				fail(fmt.Sprintf("after %s: exhausted iterator returns Key()=%q", call, k))
+				return false
+			}
+			return true
+		}
+		if k := ut.Key(); !bytes.Equal(k, snap[pos].k) {
+			fail(fmt.Sprintf("after %s: Key()=%q, model cursor at %q (pos %d of %d)", call, k, snap[pos].k, pos, len(snap)))
+			return false
+		}
+		if ok, msg := ut.ValueEq(snap[pos]); !ok {
+			fail(fmt.Sprintf("after %s at key %q: %s", call, snap[pos].k, msg))
+			return false
+		}
+		return true
+	}
+	nCreated := 0
+	newIter := func() *liveIter {
+		li := &liveIter{pos: -1, reverse: r.Chance(1, 2), ncalls: r.Range(5, 200), reuseSeek: r.Chance(1, 2)}
+		if cc.KeyMode == 3 {
+			li.reverse = nCreated%2 == 1
+		}
 		var prefix []byte
 		if cc.Level == "db" && len(keys) > 0 {
 			switch r.Intn(5) {
@@ -273,246 +313,208 @@ func (c10) Run(c core.Case, w *core.Worker) core.Result {
 				prefix = k[:r.Range(1, len(k))]
 			}
 		}
-		// snapshot
-		var snap []kvPair
 		for _, p := range model {
 			if bytes.HasPrefix(p.k, prefix) {
-				snap = append(snap, p)
+				li.snap = append(li.snap, p)
 			}
 		}
-		sort.Slice(snap, func(i, j int) bool {
-			c := bytes.Compare(snap[i].k, snap[j].k)
+		reverse := li.reverse
+		sort.Slice(li.snap, func(i, j int) bool {
+			c := bytes.Compare(li.snap[i].k, li.snap[j].k)
 			if reverse {
 				return c > 0
 			}
 			return c < 0
 		})
-		var ut iterUnderTest
 		pv, st := core.Safe(func() {
 			if cc.Level == "index" {
-				ut = idxIter{sidx.Iterator(reverse)}
+				li.ut = idxIter{sidx.Iterator(reverse)}
 				res.Add("iters_index_level", 1)
 			} else {
-				ut = dbIter{db.NewIterator(kv.IteratorOptions{Prefix: prefix, Reverse: reverse})}
+				li.ut = dbIter{db.NewIterator(kv.IteratorOptions{Prefix: prefix, Reverse: reverse})}
 				res.Add("iters_db_level", 1)
 			}
 		})
 		if pv != nil {
 			res.Violate(fmt.Sprintf("iterator creation panicked: %v", pv), feat, st)
-			return res
+			return nil
 		}
-		calllog = append(calllog, fmt.Sprintf("-- new iterator reverse=%v prefix=%q snapshot=%d keys", reverse, prefix, len(snap)))
-		pos := -1 // -1 = fresh (unpositioned)
-		ncalls := r.Range(5, 200)
-		// every second iterator passes all its Seek targets through ONE recycled buffer
-		reuseSeek := r.Chance(1, 2)
-		var seekBuf []byte
-		seekAfterNext, rewindAfterEx, lastWasNext := false, false, false
-		cmpState := func(call string) bool {
-			res.Add("iter_calls_compared", 1)
-			valid := ut.Valid()
-			wantValid := pos >= 0 && pos < len(snap)
-			if valid != wantValid {
-				fail(fmt.Sprintf("after %s: Valid()=%v, model cursor says %v (pos %d of %d)", call, valid, wantValid, pos, len(snap)))
-				return false
-			}
-			if !valid {
-				if k := ut.Key(); k != nil {
-					fail(fmt.Sprintf("after %s: exhausted iterator returns Key()=%q", call, k))
-					return false
-				}
-				return true
-			}
-			if k := ut.Key(); !bytes.Equal(k, snap[pos].k) {
-				fail(fmt.Sprintf("after %s: Key()=%q, model cursor at %q (pos %d of %d)", call, k, snap[pos].k, pos, len(snap)))
-				return false
-			}
-			if ok, msg := ut.ValueEq(snap[pos]); !ok {
-				fail(fmt.Sprintf("after %s at key %q: %s", call, snap[pos].k, msg))
-				return false
-			}
-			return true
+		nCreated++
+		calllog = append(calllog, fmt.Sprintf("-- new iterator #%d reverse=%v prefix=%q snapshot=%d keys", nCreated, reverse, prefix, len(li.snap)))
+		return li
+	}
+	fullWalk := func(li *liveIter) bool {
+		// a complete walk: Rewind, then Next until exhausted, every position compared
+		li.ut.Rewind()
+		li.pos = 0
+		calllog = append(calllog, "Rewind (full walk)")
+		for cmpState(li, "Rewind/Next of the full walk") && li.pos < len(li.snap) {
+			li.ut.Next()
+			li.pos++
 		}
-		fullWalk := it == 0 || (cc.KeyMode == 3 && it == 1)
-		pv, st = core.Safe(func() {
-			if fullWalk {
-				// a complete walk: Rewind, then Next until exhausted, every position compared
-				ut.Rewind()
-				pos = 0
-				calllog = append(calllog, "Rewind (full walk)")
-				for cmpState("Rewind/Next of the full walk") && pos < len(snap) {
-					ut.Next()
-					pos++
-				}
-				if res.Verdict == "violated" {
-					return
-				}
-				res.Add("full_walks", 1)
-				res.Add("full_walk_positions", int64(len(snap)))
+		if res.Verdict == "violated" {
+			return false
+		}
+		res.Add("full_walks", 1)
+		res.Add("full_walk_positions", int64(len(li.snap)))
+		return true
+	}
+	// step performs one call on li and compares; false = stop the case
+	step := func(li *liveIter, allowWrite bool) bool {
+		li.done++
+		var call string
+		choice := r.Intn(100)
+		if li.pos == -1 {
+			if choice < 50 {
+				choice = 0 // rewind
+			} else {
+				choice = 10 // seek
 			}
-			for ci := 0; ci < ncalls; ci++ {
-				// choose a call
-				var call string
-				choice := r.Intn(100)
-				if pos == -1 {
-					if choice < 50 {
-						choice = 0 // rewind
-					} else {
-						choice = 10 // seek
+		}
+		switch {
+		case choice < 8:
+			call = "Rewind"
+			if li.pos >= len(li.snap) && li.pos >= 0 {
+				li.rewindAfterEx = true
+				res.Add("rewinds_after_exhaustion", 1)
+			}
+			li.ut.Rewind()
+			li.pos = 0
+			li.lastWasNext = false
+		case choice < 30:
+			// Seek to a target at or ahead of the cursor
+			var target []byte
+			if li.pos >= len(li.snap) && li.pos >= 0 {
+				// exhausted: only beyond the last key
+				if len(li.snap) == 0 {
+					target = []byte("m")
+				} else if li.reverse {
+					// beyond the last (smallest) key in li.reverse order = something smaller
+					last := li.snap[len(li.snap)-1].k
+					if len(last) == 1 && last[0] == 0 {
+						return true
 					}
-				}
-				switch {
-				case choice < 8:
-					call = "Rewind"
-					if pos >= len(snap) && pos >= 0 {
-						rewindAfterEx = true
-						res.Add("rewinds_after_exhaustion", 1)
-					}
-					ut.Rewind()
-					pos = 0
-					lastWasNext = false
-				case choice < 30:
-					// Seek to a target at or ahead of the cursor
-					var target []byte
-					if pos >= len(snap) && pos >= 0 {
-						// exhausted: only beyond the last key
-						if len(snap) == 0 {
-							target = []byte("m")
-						} else if reverse {
-							// beyond the last (smallest) key in reverse order = something smaller
-							last := snap[len(snap)-1].k
-							if len(last) == 1 && last[0] == 0 {
-								continue
-							}
-							target = append([]byte{}, last...)
-							if target[len(target)-1] > 0 {
-								target[len(target)-1]--
-							} else {
-								target = target[:len(target)-1]
-							}
-							if len(target) == 0 {
-								continue
-							}
-						} else {
-							target = append(append([]byte{}, snap[len(snap)-1].k...), 0)
-						}
+					target = append([]byte{}, last...)
+					if target[len(target)-1] > 0 {
+						target[len(target)-1]--
 					} else {
-						lo := pos
-						if lo < 0 {
-							lo = 0
-						}
-						if len(snap) == 0 {
-							target = []byte("b")
-						} else {
-							j := r.Range(lo, len(snap)-1)
-							base := snap[j].k
-							switch r.Intn(4) {
-							case 0:
-								target = append([]byte{}, base...) // exact
-							case 1:
-								// between keys, still not behind the cursor
-								if reverse {
-									if j+1 < len(snap) {
-										target = append(append([]byte{}, snap[j+1].k...), 0) // just above the next (smaller) key
-										if bytes.Compare(target, snap[j].k) >= 0 {
-											target = append([]byte{}, base...)
-										}
-									} else {
-										target = append([]byte{}, base...)
-									}
-								} else {
-									target = append(append([]byte{}, base...), 0)
-								}
-							case 2:
-								if reverse {
-									target = []byte{0}
-									if bytes.Compare(target, snap[len(snap)-1].k) >= 0 {
-										target = append([]byte{}, base...)
-									}
-								} else {
-									target = bytes.Repeat([]byte{0xff}, 8) // beyond everything
-								}
-							default:
-								target = append([]byte{}, base...)
-							}
-							// never behind the cursor
-							if pos >= 0 && pos < len(snap) {
-								cur := snap[pos].k
-								if (!reverse && bytes.Compare(target, cur) < 0) || (reverse && bytes.Compare(target, cur) > 0) {
-									target = append([]byte{}, cur...)
-								}
-							}
-						}
+						target = target[:len(target)-1]
 					}
 					if len(target) == 0 {
-						continue
+						return true
 					}
-					call = fmt.Sprintf("Seek(%q)", target)
-					if lastWasNext {
-						seekAfterNext = true
-					}
-					res.Add("seeks", 1)
-					if reuseSeek {
-						seekBuf = append(seekBuf[:0], target...)
-						ut.Seek(seekBuf)
-						res.Add("seeks_through_recycled_buffer", 1)
-					} else {
-						ut.Seek(target)
-					}
-					if !(pos >= len(snap) && pos >= 0) {
-						np := sort.Search(len(snap), func(i int) bool {
-							c := bytes.Compare(snap[i].k, target)
-							if reverse {
-								return c <= 0
+				} else {
+					target = append(append([]byte{}, li.snap[len(li.snap)-1].k...), 0)
+				}
+			} else {
+				lo := li.pos
+				if lo < 0 {
+					lo = 0
+				}
+				if len(li.snap) == 0 {
+					target = []byte("b")
+				} else {
+					j := r.Range(lo, len(li.snap)-1)
+					base := li.snap[j].k
+					switch r.Intn(4) {
+					case 0:
+						target = append([]byte{}, base...) // exact
+					case 1:
+						// between keys, still not behind the cursor
+						if li.reverse {
+							if j+1 < len(li.snap) {
+								target = append(append([]byte{}, li.snap[j+1].k...), 0) // just above the next (smaller) key
+								if bytes.Compare(target, li.snap[j].k) >= 0 {
+									target = append([]byte{}, base...)
+								}
+							} else {
+								target = append([]byte{}, base...)
 							}
-							return c >= 0
-						})
-						pos = np
+						} else {
+							target = append(append([]byte{}, base...), 0)
+						}
+					case 2:
+						if li.reverse {
+							target = []byte{0}
+							if bytes.Compare(target, li.snap[len(li.snap)-1].k) >= 0 {
+								target = append([]byte{}, base...)
+							}
+						} else {
+							target = bytes.Repeat([]byte{0xff}, 8) // beyond everything
+						}
+					default:
+						target = append([]byte{}, base...)
 					}
-					lastWasNext = false
-				default:
-					call = "Next"
-					ut.Next()
-					if pos < len(snap) {
-						pos++
-					}
-					lastWasNext = true
-				}
-				calllog = append(calllog, call)
-				if !cmpState(call) {
-					return
-				}
-				// interleaved writes
-				if r.Chance(1, 4) {
-					k := extra[r.Intn(len(extra))]
-					if len(keys) > 0 && r.Chance(1, 2) {
-						k = keys[r.Intn(len(keys))]
-					}
-					if r.Chance(2, 3) {
-						put(k)
-						calllog = append(calllog, fmt.Sprintf("  [write put %q]", k))
-					} else {
-						del(k)
-						calllog = append(calllog, fmt.Sprintf("  [write del %q]", k))
-					}
-					res.Add("writes_interleaved", 1)
-					if pos >= 0 && !cmpState("interleaved write") {
-						return
+					// never behind the cursor
+					if li.pos >= 0 && li.pos < len(li.snap) {
+						cur := li.snap[li.pos].k
+						if (!li.reverse && bytes.Compare(target, cur) < 0) || (li.reverse && bytes.Compare(target, cur) > 0) {
+							target = append([]byte{}, cur...)
+						}
 					}
 				}
 			}
-			ut.Close()
-		})
-		if pv != nil {
-			res.Violate(fmt.Sprintf("iterator call panicked: %v", pv), feat, map[string]any{"calls": lastN(calllog, 30), "stack": st})
-			return res
+			if len(target) == 0 {
+				return true
+			}
+			call = fmt.Sprintf("Seek(%q)", target)
+			if li.lastWasNext {
+				li.seekAfterNext = true
+			}
+			res.Add("seeks", 1)
+			if li.reuseSeek {
+				li.seekBuf = append(li.seekBuf[:0], target...)
+				li.ut.Seek(li.seekBuf)
+				res.Add("seeks_through_recycled_buffer", 1)
+			} else {
+				li.ut.Seek(target)
+			}
+			if !(li.pos >= len(li.snap) && li.pos >= 0) {
+				reverse := li.reverse
+				li.pos = sort.Search(len(li.snap), func(i int) bool {
+					c := bytes.Compare(li.snap[i].k, target)
+					if reverse {
+						return c <= 0
+					}
+					return c >= 0
+				})
+			}
+			li.lastWasNext = false
+		default:
+			call = "Next"
+			li.ut.Next()
+			if li.pos < len(li.snap) {
+				li.pos++
+			}
+			li.lastWasNext = true
 		}
-		if seekAfterNext && rewindAfterEx {
-			nontrivial = true
+		calllog = append(calllog, call)
+		if !cmpState(li, call) {
+			return false
 		}
+		// interleaved writes
+		if allowWrite && r.Chance(1, 4) {
+			k := extra[r.Intn(len(extra))]
+			if len(keys) > 0 && r.Chance(1, 2) {
+				k = keys[r.Intn(len(keys))]
+			}
+			if r.Chance(2, 3) {
+				put(k)
+				calllog = append(calllog, fmt.Sprintf("  [write put %q]", k))
+			} else {
+				del(k)
+				calllog = append(calllog, fmt.Sprintf("  [write del %q]", k))
+			}
+			res.Add("writes_interleaved", 1)
+			if li.pos >= 0 && !cmpState(li, "interleaved write") {
+				return false
+			}
+		}
+		return true
 	}
+	var checkListFold func()
 	// ListKeys / Fold
-	if cc.Level == "db" && res.Verdict != "violated" {
+	checkListFold = func() {
 		var want []kvPair
 		for _, p := range model {
 			want = append(want, p)
@@ -552,6 +554,85 @@ func (c10) Run(c core.Case, w *core.Worker) core.Result {
 		} else if stopAt < 0 && i != len(want) {
 			fail(fmt.Sprintf("Fold visited %d of %d keys", i, len(want)))
 		}
+	}
+	for nCreated < nIters && res.Verdict != "violated" {
+		// a group of 1..3 iterators whose lifetimes overlap: created one after the other (the
+		// earlier ones already partly consumed, half of the time with no write in between),
+		// then driven in random alternation
+		group := 1
+		if r.Chance(1, 2) {
+			group = r.Range(2, 3)
+		}
+		if cc.KeyMode == 3 {
+			group = nIters // large populations: all iterators alive together, directions alternating
+		}
+		quiet := r.Chance(1, 2)
+		var live []*liveIter
+		var pv any
+		var st string
+		pv, st = core.Safe(func() {
+			for g := 0; g < group && nCreated < nIters; g++ {
+				li := newIter()
+				if li == nil {
+					return
+				}
+				live = append(live, li)
+				if nCreated == 1 || (cc.KeyMode == 3 && nCreated == 2) {
+					if !fullWalk(li) {
+						return
+					}
+				}
+				if g+1 < group {
+					for _, l := range live {
+						for k := r.Range(1, 8); k > 0 && l.done < l.ncalls; k-- {
+							if !step(l, !quiet) {
+								return
+							}
+						}
+					}
+				}
+			}
+			if len(live) > 1 {
+				res.Add("iterators_with_overlapping_lifetimes", int64(len(live)))
+			}
+			for {
+				var todo []*liveIter
+				for _, l := range live {
+					if l.done < l.ncalls {
+						todo = append(todo, l)
+					}
+				}
+				if len(todo) == 0 {
+					break
+				}
+				if !step(todo[r.Intn(len(todo))], true) {
+					return
+				}
+				if cc.Level == "db" && r.Chance(1, 60) && len(model) < 5000 {
+					// ListKeys and Fold in the middle of the iterators' lives
+					checkListFold()
+					res.Add("listkeys_while_iterators_are_open", 1)
+					if res.Verdict == "violated" {
+						return
+					}
+				}
+			}
+			for _, l := range live {
+				l.ut.Close()
+			}
+		})
+		if pv != nil {
+			res.Violate(fmt.Sprintf("iterator call panicked: %v", pv), feat, map[string]any{"calls": lastN(calllog, 30), "stack": st})
+			return res
+		}
+		for _, l := range live {
+			if l.seekAfterNext && l.rewindAfterEx {
+				nontrivial = true
+			}
+		}
+	}
+	if cc.Level == "db" && res.Verdict != "violated" {
+		checkListFold()
 	} else if cc.Level == "index" {
 		res.Add("listkeys_compared", 0)
 	}
